@@ -109,6 +109,23 @@ type opaqueIO struct{ d z80.IO }
 func (o *opaqueIO) In(p uint8) uint8     { return o.d.In(p) }
 func (o *opaqueIO) Out(p uint8, v uint8) { o.d.Out(p, v) }
 
+// bankIO is a port device that switches banks: every access re-points CPU.Memory to the other memory of
+// its pair (a port-selected bank register, implemented by replacing the Memory object). It answers like a
+// DumbIO of 256 ports.
+type bankIO struct {
+	cpu   *z80.CPU
+	banks [2]z80.Memory
+	cur   int
+	ports z80.DumbIO
+}
+
+func (d *bankIO) flip() {
+	d.cur ^= 1
+	d.cpu.Memory = d.banks[d.cur]
+}
+func (d *bankIO) In(p uint8) uint8     { d.flip(); return d.ports.In(p) }
+func (d *bankIO) Out(p uint8, v uint8) { d.flip(); d.ports.Out(p, v) }
+
 // concKinds: the concrete memories of the pass.
 var concKinds = []struct {
 	name string
@@ -118,6 +135,10 @@ var concKinds = []struct {
 	{"DumbMemory len 65536+256", 65536 + 256},
 	{"DumbMemory len 32768", 32768},
 	{"MapMemory", 0},
+	// the port device re-points CPU.Memory to a second memory of the same kind on every port access (port
+	// forms only): whichever object the implementation lets serve the rest of the instruction, it must not
+	// depend on whether the memories arrive as the concrete type or behind a wrapper
+	{"DumbMemory len 65536, bank switch on port access", -1},
 }
 
 type concRunner struct {
@@ -129,10 +150,30 @@ type concRunner struct {
 	cpuA     z80.CPU
 	cpuB     z80.CPU
 	wrapB    *opaqueMem
+	// bank-switch kind: second bank per side and the switching devices
+	a2, b2       *concMem
+	wrapB2       *opaqueMem
+	bankA, bankB *bankIO
 }
 
 func newConcRunner(bg *[65536]uint8, kind int) *concRunner {
 	r := &concRunner{kind: kind}
+	if concKinds[kind].n == -1 {
+		bg2 := obs.NewBackground(0x5EED0003)
+		r.a, r.b = newConcMem(bg, 65536), newConcMem(bg, 65536)
+		r.a2, r.b2 = newConcMem(bg2, 65536), newConcMem(bg2, 65536)
+		r.wrapB, r.wrapB2 = &opaqueMem{m: r.b.dm}, &opaqueMem{m: r.b2.dm}
+		r.cpuA.Memory, r.cpuB.Memory = r.a.dm, r.wrapB
+		r.ioInit = make([]uint8, 256)
+		for i := range r.ioInit {
+			r.ioInit[i] = bg[0x4000+i*3]
+		}
+		r.ioA, r.ioB = make(z80.DumbIO, 256), make(z80.DumbIO, 256)
+		r.bankA = &bankIO{cpu: &r.cpuA, banks: [2]z80.Memory{r.a.dm, r.a2.dm}, ports: r.ioA}
+		r.bankB = &bankIO{cpu: &r.cpuB, banks: [2]z80.Memory{r.wrapB, r.wrapB2}, ports: r.ioB}
+		r.cpuA.IO, r.cpuB.IO = r.bankA, r.bankB
+		return r
+	}
 	if n := concKinds[kind].n; n > 0 {
 		r.a, r.b = newConcMem(bg, n), newConcMem(bg, n)
 		r.cpuA.Memory = r.a.dm
@@ -176,6 +217,13 @@ func (r *concRunner) one(cs *Case) []string {
 		r.pokeBoth(p.Addr, p.Data...)
 	}
 	r.pokeBoth(cs.S.PC, cs.Bytes...)
+	if r.bankA != nil {
+		r.a2.restore()
+		r.b2.restore()
+		r.bankA.cur, r.bankB.cur = 0, 0
+		r.cpuA.Memory, r.cpuB.Memory = r.a.dm, r.wrapB
+		r.wrapB2.limit = 4096
+	}
 	copy(r.ioA, r.ioInit)
 	copy(r.ioB, r.ioInit)
 	toCPU(&cs.S, &r.cpuA)
@@ -210,10 +258,18 @@ func (r *concRunner) one(cs *Case) []string {
 			}
 		}
 	}
+	if r.bankA != nil {
+		if i := firstDiff(r.a2.dm, r.b2.dm); i >= 0 {
+			d = append(d, fmt.Sprintf("contents of the second bank differ at index %#x: unwrapped %02X, wrapped %02X (before the Step: %02X)", i, r.a2.dm[i], r.b2.dm[i], r.a2.pristine[i]))
+		}
+		if r.bankA.cur != r.bankB.cur {
+			d = append(d, "the two sides made a different number of port accesses")
+		}
+	}
 	if i := firstDiff(r.ioA, r.ioB); i >= 0 {
 		d = append(d, fmt.Sprintf("DumbIO contents differ at port %02X: unwrapped %02X, wrapped %02X", i, r.ioA[i], r.ioB[i]))
 	}
-	if _, ok := r.cpuA.Memory.(z80.DumbMemory); r.a != nil && !ok {
+	if _, ok := r.cpuA.Memory.(z80.DumbMemory); r.a != nil && r.bankA == nil && !ok {
 		d = append(d, "CPU.Memory was replaced during the Step")
 	}
 	return d
@@ -252,6 +308,9 @@ func runConcreteTypes(c *Ctx, name string, encs []*Enc, fs []uint8) {
 				for _, f := range fs {
 					cs.S.F = f
 					for k, r := range runners[wi] {
+						if r.bankA != nil && !readsPort(e) && e.Inst.Kind != refz80.KOutnA && e.Inst.Kind != refz80.KOutC && e.Inst.Kind != refz80.KBlkOut {
+							continue
+						}
 						d := r.one(&cs)
 						ev++
 						if len(d) > 0 {
